@@ -563,8 +563,8 @@ def compare(rq, impl, model, ctx):
                 if not six_digit_ok(v, x, u):
                     out.append(fail("prop", "list entry read back differs in the first six significant digits", "[%d] %r -> %r (unit %r)" % (k_, x, v, u)))
                     break
-        if bi != bm:
-            out.append(fail("corr", "bytes of the file written by Export_List differ from the model", _diff(bi, bm)))
+        hl_ = h.count("\n") + 1 if h else 0
+        cmp_bytes(bi, bm, hl_, lambda i, j: (xs[i], u) if i < len(xs) and j == 0 else None, "Export_List", out, ctx)
         if ti[1] != tm[1]:
             out.append(fail("corr", "Count_Lines of the exported list", "impl %s model %s" % (ti[1], tm[1])))
         cmp_values([li], [lm], "Import_List", out)
@@ -575,8 +575,10 @@ def compare(rq, impl, model, ctx):
         us, rest = read_list(a[1:], fl)
         t, _ = read_table(rest, fl)
         bi, bm = unhex(ti[0]), unhex(tm[0])
-        if bi != bm:
-            out.append(fail("corr", "bytes of the file written by Export_Table differ from the model", _diff(bi, bm)))
+        hl_ = h.count("\n") + 1 if h else 0
+        nonempty = [r for r in t if r]
+        cmp_bytes(bi, bm, hl_, lambda i, j: (nonempty[i][j], us[j] if us else 1.0) if i < len(nonempty) and j < len(nonempty[i]) else None,
+                  "Export_Table", out, ctx)
         if ti[1] != tm[1]:
             out.append(fail("corr", "Count_Lines of the exported table", "impl %s model %s" % (ti[1], tm[1])))
         if tm[2] != "glue1" or tm[3] != "tl1":
@@ -614,8 +616,7 @@ def compare(rq, impl, model, ctx):
         return out
     if op in ("c20.expfunc", "c20.expfuncL"):
         bi, bm = unhex(ti[0]), unhex(tm[0])
-        if bi != bm:
-            out.append(fail("corr", "bytes of the file written by Export_Function differ from the model", _diff(bi, bm)))
+        cmp_bytes(bi, bm, 10 ** 9, lambda i, j: None, "Export_Function", out, ctx)
         return out
     if op == "c20.implist":
         li, _ = read_list(ti, fl)
@@ -672,6 +673,84 @@ def compare(rq, impl, model, ctx):
     return [fail("corr", "unknown op " + op)]
 
 
+def _knife_edge(x, u):
+    """exact x/u within 2^-40 (relative) of a six-digit rounding boundary, exact ties included"""
+    q = Fraction(x) / Fraction(u)
+    return q != 0 and not _margin6(q, 40)
+
+
+def cmp_bytes(bi, bm, hl, entry, what, out, ctx):
+    """class A on the written file: line structure and tokens. Blank runs between tokens are normalised
+    (the separator is not part of the property); a token that differs is excused iff the exact quotient is a
+    knife-edge of the six-digit rounding (the double division decides it)."""
+    norm = lambda s: re.sub(r"[ \t]+", "\t", s)
+    if norm(bi) == norm(bm):
+        return
+    lo, sh = (norm(bi), norm(bm)) if len(norm(bi)) > len(norm(bm)) else (norm(bm), norm(bi))
+    if lo == sh + "\n" and sh and not sh.endswith("\n"):
+        # one final newline more or less does not change Count_Lines nor the tokens
+        bump(ctx, "final-newline-differs")
+        return
+    li, lm = bi.split("\n"), bm.split("\n")
+    if len(li) != len(lm):
+        out.append(fail("corr", "bytes of the file written by %s differ from the model (line structure)" % what, _diff(bi, bm)))
+        return
+    for L, (a_, b_) in enumerate(zip(li, lm)):
+        ta, tb = a_.split(), b_.split()
+        if ta == tb:
+            continue
+        if L < hl or len(ta) != len(tb):
+            out.append(fail("corr", "bytes of the file written by %s differ from the model" % what, _diff(bi, bm)))
+            return
+        for j, (x_, y_) in enumerate(zip(ta, tb)):
+            if x_ != y_:
+                e = entry(L - hl, j)
+                if e is not None and _knife_edge(*e):
+                    ctx["excused"] += 1
+                else:
+                    out.append(fail("corr", "bytes of the file written by %s differ from the model" % what,
+                                    "line %d token %d: impl %r model %r" % (L, j, x_, y_)))
+                    return
+
+
+PY_IDENTITIES = [
+    ("Joule", lambda v: v["kg"] * v["meter"] ** 2 / v["sec"] ** 2),
+    ("Newton", lambda v: v["kg"] * v["meter"] / v["sec"] ** 2),
+    ("Watt", lambda v: v["kg"] * v["meter"] ** 2 / v["sec"] ** 3),
+    ("Pa", lambda v: v["kg"] / v["meter"] / v["sec"] ** 2),
+    ("erg", lambda v: v["gram"] * v["cm"] ** 2 / v["sec"] ** 2),
+    ("dyne", lambda v: v["gram"] * v["cm"] / v["sec"] ** 2),
+    ("Joule", lambda v: v["Volt"] * v["Coulomb"]),
+    ("Ohm", lambda v: v["Volt"] / v["Ampere"]),
+    ("Tesla", lambda v: v["Newton"] * v["sec"] / (v["Coulomb"] * v["meter"])),
+    ("Hz", lambda v: 1 / v["sec"]),
+    ("minute", lambda v: 60 * v["sec"]), ("hr", lambda v: 3600 * v["sec"]), ("day", lambda v: 86400 * v["sec"]),
+    ("year", lambda v: Fraction(31557600) * v["sec"]), ("km", lambda v: 1000 * v["meter"]), ("cm", lambda v: v["meter"] / 100),
+    ("mm", lambda v: v["meter"] / 1000), ("inch", lambda v: Fraction(254, 10000) * v["meter"]), ("mile", lambda v: Fraction(1609344, 1000) * v["meter"]),
+]
+
+
+def py_identities(ctx):
+    """the identities named by the property, evaluated on the values each build reads after start-up"""
+    out = []
+    for b, res in builds(ctx).items():
+        if "error" in res:
+            continue
+        vals = {k: Fraction(v) for k, v in res["values"].items() if not (math.isnan(v) or math.isinf(v))}
+        for lhs, f in PY_IDENTITIES:
+            try:
+                rhs = f(vals)
+                l = vals[lhs]
+            except (KeyError, ZeroDivisionError):
+                out.append(fail("prop", "derived unit differs from its defining product of base constants (build %s)" % b,
+                                "%s: an ingredient is missing or zero" % lhs))
+                continue
+            if l == 0 or abs(l - rhs) > 32 * EPS * abs(rhs):
+                out.append(fail("prop", "derived unit differs from its defining product of base constants (build %s)" % b,
+                                "%s = %r, product = %r" % (lhs, float(l), float(rhs))))
+    return out
+
+
 def _round_ok(v, q, d):
     """|v - q| within half a unit of the d-th significant digit (plus rounding)"""
     if q == 0:
@@ -705,7 +784,7 @@ def compare_units(op, a, model, ctx):
             if "error" in res:
                 out.append(fail("corr", "build %s of Natural_Units.cpp failed" % b, res["error"]))
         ctx["stats"]["unit_definitions"] = n
-        return out
+        return out + py_identities(ctx)
     if op == "c20.unit":
         name, klass, expr = a[0], tm[0], tm[1:]
         ref = eval_prefix(expr)
@@ -753,6 +832,8 @@ def oracle_only(rq, impl, ctx):
     """proofs broken: still look for a concrete failing input on the implementation"""
     op = rq.split(" ", 1)[0]
     a = rq.split()[1:]
+    if op == "c20.units":
+        return py_identities(ctx)
     if tag(impl) != "ok":
         return []
     ti = toks(impl)
